@@ -4,6 +4,22 @@ NOTES = ("All checks are generated-input searches against explicit oracles (prop
          "./check <ID> rebuilds AsmJit from /repo's working tree with ASan+UBSan and ASMJIT_ASSERT active, runs the harness on all "
          "cores with seeds derived from VERIF_SEED, merges counters into evidence/<ID>.json. Replay files are plain text cases "
          "re-run without the library.")
+ALL = ["C%02d" % i for i in range(1, 21)]
 ENGINES = [
-    dict(name="rapidcheck", path="fw/vh.h", serves_properties=["C19"], kind_free_text="property-based testing (generators + integrated shrinking), one process per worker, Case = plain serialisable data"),
+    dict(name="rapidcheck harness framework", path="fw/vh.h", serves_properties=[x for x in ALL if x != "C14"],
+         kind_free_text="property-based testing (generators + integrated shrinking + deterministic sweeps), one process per worker, Case = plain serialisable integer data; replay without the library"),
+    dict(name="libFuzzer", path="fw/run_libfuzzer.py", serves_properties=["C14"],
+         kind_free_text="coverage-guided fuzzing (clang -fsanitize=fuzzer,address,undefined) with the semantic oracle inside the target; saved artifact = replay unit"),
+    dict(name="LLVM-14 MC + binutils libopcodes oracles", path="oracle/", serves_properties=["C01", "C02", "C03", "C04", "C13", "C17", "C20", "C14"],
+         kind_free_text="independent assembler/disassemblers linked in-process as differential oracles"),
+    dict(name="ISA-database template judges", path="gen/", serves_properties=["C01", "C02", "C12", "C13", "C14"],
+         kind_free_text="x86 encoding-rule judge (gen/x86tmpl.h) and AArch64 fixed-bit masks generated from db/*.json"),
+    dict(name="host execution trampoline", path="hostexec/", serves_properties=["C05", "C06", "C07", "C12"],
+         kind_free_text="runs generated machine code on the host CPU on a private stack with full register-state capture; signals become results"),
+    dict(name="clang ABI probes", path="fw/c06_abi.py", serves_properties=["C06"],
+         kind_free_text="generated C signatures compiled by clang for 16 ABI variants; argument locations extracted from the assembly as reference"),
+    dict(name="fault injection", path="props/c15.cpp", serves_properties=["C15"],
+         kind_free_text="arena hook H1 (ASMJIT_VERIF) + linker --wrap of malloc/mmap family; enumerated and generated fault plans"),
+    dict(name="ThreadSanitizer", path="props/c11.cpp", serves_properties=["C11"],
+         kind_free_text="generated multi-thread schedules of allocator/runtime operations under TSan plus a linearisability-style model check of results"),
 ]
